@@ -151,7 +151,29 @@ def aggregates(fn, tainted):
             if d in AGG_FUNCS and c.args and any(is_t(a) for a in c.args[:1]):
                 if _axis1(c):
                     continue
-                if d in ("set", "frozenset", "sorted", "sum", "min", "max", "any", "all") and isinstance(c.args[0], (ast.List, ast.Tuple)) and False:
+                def elt_tainted(comp):
+                    """is the collected element data?  the loop variables are judged by what they range over (per component of a zip)"""
+                    local = {}
+                    for g in comp.generators:
+                        it = g.iter
+                        if isinstance(g.target, ast.Tuple) and isinstance(it, ast.Call) and dotted(it.func) in ("zip", "enumerate") and \
+                                (dotted(it.func) == "enumerate" or len(it.args) == len(g.target.elts)):
+                            srcs = ([ast.Constant(value=0)] + list(it.args[:1])) if dotted(it.func) == "enumerate" else list(it.args)
+                            for t_, a_ in zip(g.target.elts, srcs):
+                                for n_ in ast.walk(t_):
+                                    if isinstance(n_, ast.Name):
+                                        local[n_.id] = is_t(a_)
+                        else:
+                            for n_ in ast.walk(g.target):
+                                if isinstance(n_, ast.Name):
+                                    local[n_.id] = is_t(it)
+                    names = _names_loaded(comp.elt)
+                    return any(local.get(n_, n_ in tainted) for n_ in names)
+
+                if d in ("set", "frozenset", "sorted", "dict.fromkeys") and isinstance(c.args[0], (ast.GeneratorExp, ast.ListComp, ast.SetComp)) \
+                        and not elt_tainted(c.args[0]):
+                    # a collection of values that are not data (names of terms / factors); only WHICH of them are collected depends
+                    # on the data - the same dependence an `if ...: L.append(name)` in a loop has
                     continue
                 out.append(Agg(c, d, unparse(c.args[0]), d in UNIVERSAL, root))
             elif isinstance(c.func, ast.Attribute) and c.func.attr in AGG_METHODS and is_t(c.func.value):
